@@ -209,3 +209,7 @@ func VerifC02_PausedMakesNoProgress() {
 		verifrt.Assert(post.CurrentStepIndex == pre.CurrentStepIndex && post.CurrentStepState == pre.CurrentStepState && post.NextStepIndex == pre.NextStepIndex, "C02.paused.cursorUntouched")
 	}
 }
+
+// The step index moves otherwise only on an explicit user request: the dispatch relation of C10 (rollback in batches
+// restarts at step one with the matching next-step index, plan edits and supersession are recognised as such).
+func VerifC02_Dispatch() { VerifC10_Dispatch() }
